@@ -4,6 +4,7 @@ import props_trav
 import props_query
 import props_single
 import props_build
+import props_render
 
 CHECKS = {}
 CHECKS.update(props_struct.CHECKS)
@@ -11,3 +12,4 @@ CHECKS.update(props_trav.CHECKS)
 CHECKS.update(props_query.CHECKS)
 CHECKS.update(props_single.CHECKS)
 CHECKS.update(props_build.CHECKS)
+CHECKS.update(props_render.CHECKS)
